@@ -367,5 +367,7 @@ func vh_C03_L10_reset_response_for_unknown_request() {
 // C03.L11: a COOKIE ECHO with the wrong cookie during the handshake does not cancel the
 // handshake's retransmissions (= C04.L2b); a stream reset request whose last TSN lies beyond
 // the 2^32 wrap of the cumulative point is deferred, not performed (= C14.L2).
-func vh_C03_L11_forged_cookie_echo_keeps_the_handshake_alive() { vh_C04_L2_stale_cookie_echo_keeps_retries() }
-func vh_C03_L11_reset_request_beyond_the_wrap_is_deferred()    { vh_C14_L2_deferred_reset() }
+func vh_C03_L11_forged_cookie_echo_keeps_the_handshake_alive() {
+	vh_C04_L2_stale_cookie_echo_keeps_retries()
+}
+func vh_C03_L11_reset_request_beyond_the_wrap_is_deferred() { vh_C14_L2_deferred_reset() }
